@@ -36,11 +36,11 @@ type Knobs struct {
 	GnetReadCap  int     `json:"gnet_read_cap"`
 	// PoolPoison: released pooled objects (messages, records, questions,
 	// request contexts) are poisoned, quarantined and checked (vsync.Pool).
-	PoolPoison     bool `json:"pool_poison,omitempty"`
+	PoolPoison bool `json:"pool_poison,omitempty"`
 	// PassDoubleRelease: the buffer-pool facade lets a detected double release
 	// through to the real pool (consequences become visible to the other oracles).
 	PassDoubleRelease bool `json:"pass_double_release,omitempty"`
-	PoolQuarantine int  `json:"pool_quarantine,omitempty"`
+	PoolQuarantine    int  `json:"pool_quarantine,omitempty"`
 }
 
 // ---- router family ----
@@ -68,6 +68,7 @@ type RouterPlan struct {
 type StartFault struct {
 	Kind string `json:"kind"` // addr_in_use | bad_pem | bad_proto | bad_scheme | dup_tag | unknown_upstream_tag | unknown_domain_tag | missing_tag | missing_addr
 	Pos  int    `json:"pos"`
+	Key  string `json:"key,omitempty"` // unknown_key: the key's name
 }
 
 type ServerSpec struct {
